@@ -123,6 +123,7 @@ def op_with_name(r, label, name):
 def r06_2(ctx):
     idx = get_index(ctx.env)
     op_list_completeness(ctx)
+    condition_effects_are_sequenced(ctx)
     for order, exp in ((None, ["s9", "s10", "consumer"]), ("HYB_THEN_SEQ", ["s9", "s10", "consumer"]), ("SEQ_THEN_HYB", ["consumer", "s9", "s10"])):
         r = Runner(idx, keep_real=("chk_hybrid_dep",))
         box = {}
@@ -250,6 +251,20 @@ def ternary_guard_checks(ctx):
     Interp(idx).explore(once)
     g = box["g"]
     ctx.check("GCCStmtDeclExpr.update_stmt replaces the emitted statement and the dependency entry", lab(g.fields["stmt"]) == "new" and lab(g.fields["effect_ops"][0]) == "new", "stmt=new, effect_ops[0]=new", f"stmt={lab(g.fields['stmt'])}, effect_ops[0]={lab(g.fields['effect_ops'][0])}", fn_where(idx, fu))
+    # ... whatever kind of statement it wraps (an `if` inside the statement-expression is a BRANCH already and still has to be guarded)
+    et = idx.enum_table("EffectType")
+    for member in sorted(et):
+        box = {}
+        def once_k(interp, member=member):
+            old = AObj("Effect", {"type": EnumV("EffectType", member, et[member])}, label="old", opaque=True)
+            new = mk_pure("new", cls="Effect")
+            g = AObj("GCCStmtDeclExpr", {"stmt": old, "effect_ops": [old, mk_pure("e")]}, label="g")
+            box["g"] = g
+            interp.call_function(fu, [new], self_obj=g)
+        Interp(idx).explore(once_k)
+        g = box["g"]
+        ctx.check(f"update_stmt replaces a statement of kind {member}", lab(g.fields["stmt"]) == "new" and lab(g.fields["effect_ops"][0]) == "new", "stmt=new, effect_ops[0]=new",
+                  f"stmt={lab(g.fields['stmt'])}, effect_ops[0]={lab(g.fields['effect_ops'][0])}", fn_where(idx, fu), nontrivial=False)
 
 
 @rule("R06.6", "C06", "temporaries: h_tmpN generated from a counter that is incremented on every name and never decremented or reset during a behaviour", min_instances=2)
@@ -416,6 +431,32 @@ def r06_4(ctx):
         obs = sorted({"raises" if o.kind == "raise" else "translates" for o in outs})
         exp = ["raises"] if pending else ["translates"]
         ctx.check(f"for loop whose condition {'has a' if pending else 'has no'} pending side effect", obs == exp, str(exp), str(obs), fn_where(idx, fi))
+    # the value of the operation may sit anywhere below the condition: `(uint8_t) j++ < 3`, `(f(k) + 0) < 30`
+    for depth in (1, 2, 3):
+        r = Runner(idx)
+
+        def items_nested(depth=depth):
+            h = r.pure("pending_value", vt=mk_vt("th", True, 32, ("PURE", "HYBRID_LVAR")), cls="LocalVar")
+            r.stubs[("pending_value", "get_name")] = "h_tmp7"
+            node = h
+            for d in range(depth):
+                cls = ("Cast", "ArithmeticOp", "CompareOp")[d % 3]
+                lbl = f"level{d}"
+                node = r.pure(lbl, vt=mk_vt("t" + lbl, True, 32), cls=cls, ops=[node, r.pure(f"other{d}", cls="Number")])
+                r.stubs[(lbl, "get_name")] = lbl
+                r.stubs[(f"other{d}", "get_name")] = f"const{d}"
+                r.stubs[(lbl, "get_ops")] = node.fields["ops"]
+            node.label = "items[2]"
+            r.stubs[("items[2]", "get_name")] = "cond"
+            r.stubs[("items[2]", "get_ops")] = node.fields["ops"]
+            return [Tok("FOR", "for"), eff(r, "items[1]"), node, eff(r, "items[3]"), eff(r, "items[4]")]
+
+        def over_nested():
+            return {"il_ops_holder": AObj("ILOpsHolder", {"hybrid_effect_dict": {"h_tmp7": eff(r, "pending7")}, "hybrid_op_count": 8}, label="holder", opaque=True)}
+
+        fi, outs = r.run("iteration_stmt", items_nested, self_over=over_nested)
+        obs = sorted({"raises" if o.kind == "raise" else "translates" for o in outs})
+        ctx.check(f"for loop whose condition uses a pending value {depth} level(s) below its top operator", obs == ["raises"], "['raises']", str(obs), fn_where(idx, fi))
 
 
 @rule("R06.8", "C06", "one operation per evaluation: every translating path of a value-producing callback builds its own hybrid node and resolves that one, whatever the transformer has seen before", min_instances=5)
@@ -488,3 +529,43 @@ def op_list_completeness(ctx):
             ctx.need(False, f"Effect.get_op_list[{cname}]: {e}")
         found = all(o.kind != "raise" and any(x is box["leaf"] for x in (o.value if isinstance(o.value, list) else [o.value])) for o in outs) and bool(outs)
         ctx.check(f"get_op_list reaches a temporary below a {cname} operand", found, "the leaf operand is listed", "leaf missing: a pending effect referenced through this node is never sequenced before its consumer", fn_where(idx, fi))
+
+
+def condition_effects_are_sequenced(ctx):
+    """an `if` whose condition contains a value-producing operation: whatever the body looks like (also empty), the operation's
+    pending effect leaves the pending table and is part of what the callback returns"""
+    idx = get_index(ctx.env)
+    bodies = (("one statement", lambda r: [eff(r, "s0")]), ("empty block", lambda r: [AObj("Empty", {"name": "empty", "effect_ops": [], "type": Opaque("t")}, label="empty0")]),
+              ("two empty statements", lambda r: [AObj("Empty", {"name": "empty", "effect_ops": [], "type": Opaque("t")}, label="empty0"), AObj("Empty", {"name": "empty", "effect_ops": [], "type": Opaque("t")}, label="empty1")]))
+    for bname, mk in bodies:
+        for with_else in (False, True):
+            r = Runner(idx)
+            box = {}
+
+            def items(mk=mk, with_else=with_else):
+                cond = r.pure("items[1]", vt=mk_vt("tc", True, 32, ("PURE", "HYBRID_LVAR")), cls="LocalVar")
+                r.stubs[("items[1]", "get_name")] = "h_tmp7"
+                it = [Tok("IF", "if"), cond, mk(r)]
+                if with_else:
+                    it += [Tok("ELSE", "else"), [eff(r, "e0")]]
+                return it
+
+            def over():
+                pend = eff(r, "pending7")
+                box["pend"] = pend
+                h = AObj("ILOpsHolder", {"hybrid_effect_dict": {"h_tmp7": pend}, "hybrid_op_count": 8}, label="holder", opaque=True)
+                box["h"] = h
+                return {"il_ops_holder": h}
+
+            fi, outs = r.run("selection_stmt", items, self_over=over)
+            good = [o for o in outs if o.kind != "raise"]
+            ctx.need(good, f"selection_stmt has no translating path [{bname}]")
+            for o in good:
+                # the callback's result must be an effect that (a) has the condition among its operands and (b) went through
+                # chk_hybrid_dep (whose body - pop the referenced pending effects, put them in front - is checked above)
+                v = o.value
+                flushed = [e[1] for e in o.events if e[0] == "flush"]
+                uses_cond = isinstance(v, AObj) and any(isinstance(x, AObj) and x.label == "items[1]" for x in r.node_op_list(v))
+                ok = isinstance(v, AObj) and any(f is v or (isinstance(v, AObj) and v.fields.get("wraps") is f) for f in flushed) and uses_cond
+                ctx.check(f"if (<value-producing operation>) with {bname}{' and else' if with_else else ''}: its effect is sequenced with the branch", ok,
+                          "the result is the flushed effect that evaluates the condition", f"returns {lab(v)[:50]} (evaluates the condition: {uses_cond}; flushed: {[lab(f)[:20] for f in flushed]})", fn_where(idx, fi))
